@@ -482,6 +482,24 @@ def run_requests(scenario, do_op, step_cap=200_000):
             outcome["msg"] = str(exc)[:300]
         outcomes[rid] = outcome
         sim.event("done", rid, digest({k: v for k, v in outcome.items() if k != "msg"}))
+        # the same worker task goes on with its next message: other evaluatable data in the same context
+        for number, follow_up in enumerate(request.get("follow_ups") or [], 1):
+            if outcome.get("cancelled"):
+                break
+            follow_rid = f"{rid}+{number}"
+            CER.set(follow_up.get("cer"))
+            try:
+                sim.event("begin", follow_rid)
+                follow_outcome = {"ok": canon(await do_op(sim, dict(follow_up, rid=follow_rid)))}
+            except asyncio.CancelledError:
+                follow_outcome = {"cancelled": True}
+            except (KeyboardInterrupt, SystemExit):
+                raise
+            except BaseException as exc:  # pylint:disable=broad-except
+                follow_outcome = describe_exception(exc)
+                follow_outcome["msg"] = str(exc)[:300]
+            outcomes[follow_rid] = follow_outcome
+            sim.event("done", follow_rid, digest({k: v for k, v in follow_outcome.items() if k != "msg"}))
 
     async def main():
         loop = asyncio.get_running_loop()
